@@ -18,7 +18,7 @@ Contents
 5. `rejection_flagged_*`, `rejection_header_broadcast_silent`, `popRequest_foreign` (D6 repaired),
    `parseObjects_error`, `write_accumulates`,
    `write_rejection_flagged` (full; D7 repaired), `rejection_flagged_write`.
-6. `operate_echo_overflow_panics` (D1), `select_echo_overflow_clean` (D13) and evaluated counterexamples.
+6. `handleControls_total`, `operate_echo_overflow_clean` (D1 repaired), `select_echo_overflow_clean` (D13) and evaluated counterexamples.
 -/
 namespace Dnp3.Proofs.C12
 open Dnp3
@@ -533,21 +533,17 @@ theorem Good.handleControls {cfg : OCfg} {a a' : Acc} (h : Good cfg a) {func seq
     · split at hc
       · -- OPERATE
         split at hc
-        · split at hc
-          · simp at hc
-          · simp only [Option.some.injEq, Prod.mk.injEq] at hc
-            obtain ⟨rfl, rfl⟩ := hc
-            rename_i st _ _
-            have := fin _ (key none st none)
-            exact ⟨this.1, fun r hr => by simp only [Option.some.injEq] at hr; subst hr; exact this.2 _⟩
-        · split at hc
-          · simp at hc
-          · simp only [Option.some.injEq, Prod.mk.injEq] at hc
-            obtain ⟨rfl, rfl⟩ := hc
-            have hk := key (some .sbo) 0 a.1.cfg.maxctl
-            rw [hcfg] at hk
-            have := fin _ hk
-            exact ⟨this.1, fun r hr => by simp only [Option.some.injEq] at hr; subst hr; exact this.2 _⟩
+        · simp only [Option.some.injEq, Prod.mk.injEq] at hc
+          obtain ⟨rfl, rfl⟩ := hc
+          rename_i st _
+          have := fin _ (key none st none)
+          exact ⟨this.1, fun r hr => by simp only [Option.some.injEq] at hr; subst hr; exact this.2 _⟩
+        · simp only [Option.some.injEq, Prod.mk.injEq] at hc
+          obtain ⟨rfl, rfl⟩ := hc
+          have hk := key (some .sbo) 0 a.1.cfg.maxctl
+          rw [hcfg] at hk
+          have := fin _ hk
+          exact ⟨this.1, fun r hr => by simp only [Option.some.injEq] at hr; subst hr; exact this.2 _⟩
       · split at hc
         · -- DIRECT_OPERATE
           simp only [Option.some.injEq, Prod.mk.injEq] at hc
@@ -1034,16 +1030,12 @@ theorem ModeIs.handleControls {m : Mode} {a a' : Acc} (h : ModeIs m a) {func seq
       split <;> exact this
     · split at hc
       · split at hc
-        · split at hc
-          · simp at hc
-          · simp only [Option.some.injEq, Prod.mk.injEq] at hc
-            obtain ⟨rfl, _⟩ := hc
-            exact key none _ none (a.1.cfg.sol - 4)
-        · split at hc
-          · simp at hc
-          · simp only [Option.some.injEq, Prod.mk.injEq] at hc
-            obtain ⟨rfl, _⟩ := hc
-            exact key (some .sbo) 0 a.1.cfg.maxctl (a.1.cfg.sol - 4)
+        · simp only [Option.some.injEq, Prod.mk.injEq] at hc
+          obtain ⟨rfl, _⟩ := hc
+          exact key none _ none (a.1.cfg.sol - 4)
+        · simp only [Option.some.injEq, Prod.mk.injEq] at hc
+          obtain ⟨rfl, _⟩ := hc
+          exact key (some .sbo) 0 a.1.cfg.maxctl (a.1.cfg.sol - 4)
       · split at hc
         · simp only [Option.some.injEq, Prod.mk.injEq] at hc
           obtain ⟨rfl, _⟩ := hc
@@ -2997,16 +2989,12 @@ theorem CbOnly.handleControls {base : List OOut} {a a' : Acc} (h : CbOnly base a
       exact this
     · split at hc
       · split at hc
-        · split at hc
-          · simp at hc
-          · simp only [Option.some.injEq, Prod.mk.injEq] at hc
-            obtain ⟨rfl, _⟩ := hc
-            exact key none _ none (a.1.cfg.sol - 4)
-        · split at hc
-          · simp at hc
-          · simp only [Option.some.injEq, Prod.mk.injEq] at hc
-            obtain ⟨rfl, _⟩ := hc
-            exact key (some .sbo) 0 a.1.cfg.maxctl (a.1.cfg.sol - 4)
+        · simp only [Option.some.injEq, Prod.mk.injEq] at hc
+          obtain ⟨rfl, _⟩ := hc
+          exact key none _ none (a.1.cfg.sol - 4)
+        · simp only [Option.some.injEq, Prod.mk.injEq] at hc
+          obtain ⟨rfl, _⟩ := hc
+          exact key (some .sbo) 0 a.1.cfg.maxctl (a.1.cfg.sol - 4)
       · split at hc
         · simp only [Option.some.injEq, Prod.mk.injEq] at hc
           obtain ⟨rfl, _⟩ := hc
@@ -3408,7 +3396,7 @@ theorem unsolicited_retry_verbatim (a : Acc) (resp : Resp) (isNull : Bool) (retr
     · rfl
     · rfl
 
-/-! ## C12 target 6 (partial): control echoes that do not fit — known findings D1, D13 -/
+/-! ## C12 target 6: control echoes that do not fit — D1 repaired, known finding D13 -/
 
 /-- the control run an OPERATE performs: `respond_with_status` when the select check fails,
     otherwise `operate_with_response` -/
@@ -3419,27 +3407,49 @@ def operateRun (a : Acc) (seq frameId : Nat) (hs : List ObjHdr) (raw : List Nat)
   | some st => ctlAll none st none hs { acc := a, cap := a.1.cfg.sol - 4 }
   | none => ctlAll (some .sbo) 0 a.1.cfg.maxctl hs { acc := a, cap := a.1.cfg.sol - 4 }
 
-/-- **D1** (characterisation): an OPERATE whose headers are all control headers panics — the
-    `unwrap` on the cursor's `WriteError` — exactly when its echo does not fit the solicited
-    transmit buffer.  (The handler callbacks of an SBO run have been made by then.) -/
-theorem operate_echo_overflow_panics (a : Acc) (seq frameId : Nat) (hs : List ObjHdr) (raw : List Nat)
-    (hall : hs.all isControlHdr = true) :
-    handleControls a 4 seq frameId hs raw = none ↔ (operateRun a seq frameId hs raw).overflow = true := by
-  unfold handleControls operateRun
+/-- the control functions always return (no `unwrap` on a `WriteError` is left: D1 repaired) -/
+theorem handleControls_total (a : Acc) (func seq frameId : Nat) (hs : List ObjHdr) (raw : List Nat) :
+    ∃ a' ro, handleControls a func seq frameId hs raw = some (a', ro) := by
+  unfold handleControls
+  split
+  · exact ⟨_, _, rfl⟩
+  · dsimp only
+    split
+    · exact ⟨_, _, rfl⟩
+    · split
+      · split <;> exact ⟨_, _, rfl⟩
+      · split <;> exact ⟨_, _, rfl⟩
+
+/-- **D1 repaired** (was `operate_echo_overflow_panics`: `handleControls a 4 … = none ↔ overflow`): an OPERATE
+    whose headers are all control headers and whose echo does not fit the solicited transmit buffer is answered
+    like a SELECT / DIRECT_OPERATE in the same situation (`select_echo_overflow_clean`, D13): the truncated echo
+    (`size = 4 + out.length`), the request's sequence number and a clean IIN2; the select state is the one the
+    control run left (the session does not touch it) -/
+theorem operate_echo_overflow_clean (a : Acc) (seq frameId : Nat) (hs : List ObjHdr) (raw : List Nat)
+    (hall : hs.all isControlHdr = true)
+    (hov : (operateRun a seq frameId hs raw).overflow = true) :
+    ∃ a' r, handleControls a 4 seq frameId hs raw = some (a', some r) ∧ r.iin2 = 0 ∧ r.ctrl.seq = seq ∧
+      r.size = 4 + (operateRun a seq frameId hs raw).out.length ∧
+      a'.1.select = (ctlFinish (operateRun a seq frameId hs raw)).acc.1.select := by
+  unfold handleControls
+  unfold operateRun at hov ⊢
   simp only [hall, Bool.not_true, Bool.false_eq_true, if_false, show (4 : Nat) ≠ 3 by decide, if_true]
   cases hsel : a.1.select with
   | none =>
-    dsimp only
-    by_cases ho : (ctlAll none 2 none hs { acc := a, cap := a.1.cfg.sol - 4 }).overflow = true <;> simp [ho]
+    simp only [hsel] at hov
+    simp only [hov, Bool.not_true, Bool.false_eq_true, false_and, if_false, ctlFinish_out]
+    exact ⟨_, _, rfl, rfl, rfl, rfl, rfl⟩
   | some sel =>
-    dsimp only
+    simp only [hsel] at hov
     cases hm : matchOperate sel a.1.cfg.stimeout a.1.now seq frameId raw with
     | some st =>
-      dsimp only
-      by_cases ho : (ctlAll none st none hs { acc := a, cap := a.1.cfg.sol - 4 }).overflow = true <;> simp [ho]
+      simp only [hm] at hov
+      simp only [hm, hov, Bool.not_true, Bool.false_eq_true, false_and, if_false, ctlFinish_out]
+      exact ⟨_, _, rfl, rfl, rfl, rfl, rfl⟩
     | none =>
-      dsimp only
-      by_cases ho : (ctlAll (some CtlKind.sbo) 0 a.1.cfg.maxctl hs { acc := a, cap := a.1.cfg.sol - 4 }).overflow = true <;> simp [ho]
+      simp only [hm] at hov
+      simp only [hm, hov, Bool.not_true, Bool.false_eq_true, false_and, if_false, ctlFinish_out]
+      exact ⟨_, _, rfl, rfl, rfl, rfl, rfl⟩
 
 /-- **D13**: SELECT and DIRECT_OPERATE whose echo does not fit do not fail: they answer with the
     truncated echo (`size = 4 + out.length`) and a clean IIN2 from the handler (0), even when a
@@ -3467,16 +3477,18 @@ theorem select_echo_overflow_clean (a : Acc) (func seq frameId : Nat) (hs : List
 /-- 62 analog output commands g41v2 (qualifier 0x17, indices 0…61, value 0, status 0) -/
 def d1Header : ObjHdr := ⟨41, 2, 0x17, 62, 0, (List.range 62).flatMap fun i => [i, 0, 0, 0]⟩
 
-/-- **D1 counterexample**: with the minimum transmit buffer (249 octets) an OPERATE carrying 62
-    g41v2 commands (echo 4 + 62·4 = 252 > 245 octets) panics the task.  Evaluated; involves no
-    database function. -/
-theorem operate_echo_overflow_counterexample :
-    (handleControls (OState.init { sol := 249 } 0, []) 4 1 0 [d1Header] []).isNone = true := by
+/-- regression instance (the former D1 counterexample): with the minimum transmit buffer (249 octets) an OPERATE carrying 62
+    g41v2 commands (echo 4 + 62·4 = 252 > 245 octets), here without a SELECT, used to panic the task; it is
+    answered with the NO_SELECT echo of 60 of the 62 objects (4 + 4 + 60·4 = 248 octets) and IIN2 = 0.
+    Evaluated; involves no database function. -/
+theorem operate_echo_truncated_d1 :
+    (handleControls (OState.init { sol := 249 } 0, []) 4 1 0 [d1Header] []).map
+        (fun p => p.2.map (fun r => (r.iin2, r.size))) = some (some (0, 248)) := by
   decide +kernel
 
 /-- **D13 counterexample**: the same request as DIRECT_OPERATE is answered with a truncated echo of
     60 of the 62 objects (4 + 4 + 60·4 = 248 octets; the 61st does not fit 249) and IIN2 = 0 -/
-theorem direct_operate_echo_truncated_counterexample :
+theorem direct_operate_echo_truncated_d1 :
     (handleControls (OState.init { sol := 249 } 0, []) 5 1 0 [d1Header] []).map
         (fun p => p.2.map (fun r => (r.iin2, r.size))) = some (some (0, 248)) := by
   decide +kernel
@@ -3812,8 +3824,9 @@ example : NoOpen (Outstation.start {} 0).1.mode := by
   have : (match (Outstation.start {} 0).1.mode with | .solWait .. => true | _ => false) = false := by decide +kernel
   rw [h] at this; cases this
 
--- `operate_echo_overflow_panics` hypothesis
+-- `operate_echo_overflow_clean` hypotheses
 example : [d1Header].all isControlHdr = true := by decide
+example : (operateRun (OState.init { sol := 249 } 0, []) 1 0 [d1Header] []).overflow = true := by decide +kernel
 
 -- `fits_and_parses` (evaluated instance only; the general round-trip theorem is NOT proved): the echo of a
 -- DIRECT_OPERATE with two g41v2 commands (status octets 9 in the request, handler status 0) re-parses to the
